@@ -70,6 +70,19 @@ TEXT = {
   "note": "Trusted: Coq kernel, extraction, driver, harness, the add-only package-main probe. net/http's header validation is outside the proof. Observation (not a finding): when the hash has fewer than five base-32 digits (probability 2^-44) shortID reuses input bytes. Defect F4 (control byte in a name broke every query of that client) fixed in /repo.",
   "technique": "Coq proof over the transcribed hashing/formatting functions (partial) + differential check against the daemon binary and real HTTP/2 requests",
  },
+ "C15": {
+  "text": "PARTIAL. Proved in Coq: a lock-set discipline is sound for a machine of any number of threads running straight-line paths of lock "
+          "operations (sync.RWMutex read/write modes, non-reentrant) and plain / atomic accesses under every schedule (Properties/C15.v: "
+          "table_ok tbl = true -> no reachable state has two threads about to perform conflicting accesses). The table is NOT written by hand: "
+          "a Go-AST translator regenerates it from /repo's source on every run (hosts, lease and router client tables, mDNS tables, DoH "
+          "last-modified map, endpoint manager, active endpoint; all control-flow paths, inlined helper calls, deferred unlocks, aliases "
+          "returned to callers), and Properties/C15_instance.v evaluates table_ok on it. Not provable here: the Go runtime, happens-before edges "
+          "through channels / sync.Once / WaitGroup, aliasing through locals and callbacks, and shared state outside the configured types - "
+          "these are covered by a race-detector stress of the real packages (lookups vs refreshes, mDNS packets vs lookups, queries vs elections, "
+          "UDP/TCP queries through the proxy), where any report touching /repo code is a violation with the report as replay.",
+  "note": "Trusted: Coq kernel, the translator harness/locks_extract.go with its configuration, the Go race detector for the stress half. Defects F6 (host / lease tables rewritten under the read lock), F21 (mDNS lookups returned slices that are later updated in place) and F19 (testInterval written under the manager lock but read under the endpoint lock) fixed in /repo.",
+  "technique": "Coq proof of lock-set soundness over all schedules + source-to-model translator re-run on every check (partial) + Go race-detector stress as failing-input search",
+ },
  "C16": {
   "text": "Proved in Coq (Properties/C16.v) on an LTS of ListenAndServe (one thread per UDP/TCP listener, main, environment choosing bind outcomes "
           "and the stop time), for every number of listeners and every interleaving: an invariant of all reachable states; once cancelled some "
